@@ -18,7 +18,8 @@ RULE = ('generated multi-gene references (2-4 genes, <=3 isoforms; transcripts t
     'hash seed 0, in-process) versus variant runs: records split over 2-4 GVF files in a '
     'generated order with .idx files on a generated subset (in-process), reference given as a '
     'generateIndex directory (in-process), --threads 2-5 (console entry point in a fresh '
-    'process, pathos workers), PYTHONHASHSEED 1/2/3/random (fresh process). Oracle '
+    'process, pathos workers), PYTHONHASHSEED 1/2/3/random (fresh process), and the unchanged '
+    'command once more in a fresh process (address-space layout differs only). Oracle '
     '(differential): identical sequence sets, exit status 0. Non-trivial = a threaded run '
     'whose number of dispatched transcripts is not a multiple of the thread count while some '
     'transcript is skipped, or a transcript whose records are spread over >= 2 files; distinct '
@@ -100,6 +101,9 @@ def strategy_(draw, tier):
         order_seed=d.randint(0, 10 ** 6), idx_mask=d.randint(0, 255) if d.chance(0.3) else 0))
     variants.append(dict(kind='hashseed', hashseed=d.choice(['1', '2', '3', 'random']),
         assign=[0] * n, order_seed=0, idx_mask=0))
+    # the very same command once more, in a fresh process: with nothing varied the output may
+    # not vary either (address-space layout is the only thing that differs between the runs)
+    variants.append(dict(kind='repeat', hashseed='0', assign=[0] * n, order_seed=0, idx_mask=0))
     return dict(ref=refd, records=records, opts=opts, variants=variants, skipped=skipped)
 
 
@@ -179,6 +183,9 @@ def prop(case, ctx):
                 desc += f" threads={v['threads']}"
                 rc, got, _, err, _ = drive.call_variant_cli(d, paths,
                     dict(o, threads=v['threads']), out_name='v.fasta')
+                if rc != 0 and 'Failed to finish transcript' in err:
+                    out.inconclusive = 'tool_timeout'
+                    return out
                 if rc != 0:
                     return out.fail(f'{desc}: exit status {rc}: {err[-300:]}',
                         'threads-exit')
@@ -186,10 +193,16 @@ def prop(case, ctx):
                 desc += f" PYTHONHASHSEED={v['hashseed']}"
                 rc, got, _, err, _ = drive.call_variant_cli(d, paths, o, out_name='v.fasta',
                     hashseed=v['hashseed'])
+                if rc != 0 and 'Failed to finish transcript' in err:
+                    out.inconclusive = 'tool_timeout'
+                    return out
                 if rc != 0:
                     return out.fail(f'{desc}: exit status {rc}: {err[-300:]}',
-                        'hashseed-exit')
+                        v['kind'] + '-exit')
         except Exception as e:     # pylint: disable=broad-except
+            if 'Failed to finish transcript' in str(e):
+                out.inconclusive = 'tool_timeout'
+                return out
             return out.fail(f'{desc}: raised {type(e).__name__}: {e} although the baseline '
                 'run succeeded', v['kind'] + '-exc:' + cveval.crash_bucket(e))
         got = set(got)
